@@ -126,11 +126,16 @@ def run(ctx):
     from . import par2common as P
     rng = ctx.rng
     e2e = 0
-    for S_, nbytes in ((4, 70), (40, 40 * 4 + 7), (64, 64 * 5 + 33), (100, 100 * 3 + 1), (2000, 16 * 2000 + 123)):
+    # (4, 2800): 700 slices; with the 100 recovery blocks asked for below that is a parity matrix of 70000 elements
+    # (40000, ...): per-goroutine byte ranges above 32 KiB that are not a multiple of it
+    for S_, nbytes in ((4, 70), (40, 40 * 4 + 7), (64, 64 * 5 + 33), (100, 100 * 3 + 1), (2000, 16 * 2000 + 123), (4, 2800), (40000, 3 * 40000 + 5)):
         # 1 damaged slice + the 2 slices of the deleted file = 3 lost slices against 5 blocks: the Repairs really reconstruct
         files = {"a.bin": L.gen_content(rng, "random", nbytes), "b.bin": L.gen_content(rng, "random", max(1, 2 * S_ - 1))}
         GS = (1, 2, 4, 5, 6, 8, 15, 17, 32, 0)        # 0 = the option's default (rsec16.DefaultNumGoroutines)
-        sets = [P.PSet(dict(files), S_, 5, g=g) for g in GS]
+        nblk_ = 100 if nbytes == 2800 else 5
+        if nbytes == 2800 or S_ == 40000:
+            GS = (1, 2, 3, 7, 16)
+        sets = [P.PSet(dict(files), S_, nblk_, g=g) for g in GS]
         for s_ in sets:
             s_.bystanders = {}
         cl = [s_.create_line("mem") for s_ in sets]
